@@ -89,6 +89,33 @@ def gen_tree(rng, depth, n, poly, nvars):
     return {'k': op, 'l': l, 'r': gen_tree(rng, depth - 1, n, poly, nvars)}
 
 
+def scale_var(t, j, q):
+    """the same tree with every coefficient on Variable component j multiplied by q"""
+    def spec(sp):
+        if not isinstance(sp, dict):
+            return sp
+        return {'off': sp['off'], 'co': [[v, frac_str(F(x) * q) if v == j else x] for v, x in sp['co']]}
+    t = dict(t)
+    if t['k'] == 'sigL':
+        t['c'] = [spec(x) for x in t['c']]
+    elif t['k'] == 'sx':
+        t['v'] = spec(t['v'])
+    for k in ('l', 'r'):
+        if isinstance(t.get(k), dict):
+            t[k] = scale_var(t[k], j, q)
+    if 'fs' in t:
+        t['fs'] = [scale_var(x, j, q) for x in t['fs']]
+    return t
+
+
+def mentions_var(t, j):
+    if t['k'] == 'sigL':
+        return any(isinstance(sp, dict) and any(v == j for v, _ in sp['co']) for sp in t['c'])
+    if t['k'] == 'sx':
+        return isinstance(t['v'], dict) and any(v == j for v, _ in t['v']['co'])
+    return any(mentions_var(x, j) for x in ([t[k] for k in ('l', 'r') if isinstance(t.get(k), dict)] + t.get('fs', [])))
+
+
 def has_sym(t):
     if t['k'] in ('sigL', 'sx'):
         return True
@@ -172,8 +199,13 @@ def oracle(c, io, rng_seed):
     rows = [tuple(F(x) for x in r) for r in io['alpha']]
     if len(set(rows)) != len(rows):
         return 'exponent rows of the result are not unique'
-    for trial in range(3):
+    for trial in range(4 if c.get('tinyvar') else 3):
         sigma = [F(rng.randint(-4, 4), rng.choice([1, 2])) for _ in range(nv)]
+        if trial == 3:
+            # one Variable component occurs with coefficients of size 2^-k only (everywhere): its terms are not identically zero,
+            # and at the value 2^k (all other components 0) they are of size one
+            j, k = c['tinyvar']
+            sigma = [F(2) ** k if v == j else F(0) for v in range(nv)]
         try:
             ref = ref_eval_sum(subst(c['t'], sigma))
         except st.RefError:
@@ -220,6 +252,12 @@ def run(ctx):
         if st.tree_size(t) > 40 or not has_sym(t):
             continue
         base = {'sizes': sizes, 't': t, 'two_symbolic': two_symbolic(t)}
+        if rng.random() < 0.2:
+            j = rng.randrange(sum(sizes))
+            if mentions_var(t, j):
+                k = rng.choice([50, 70, 90])
+                base['t'] = scale_var(t, j, F(1, 2 ** k))
+                base['tinyvar'] = [j, k]
         # the same tree under three adversarial value stores: history independence
         stores = [None, [0] * sum(sizes), [None] * sum(sizes), [rng.choice([0, 1, -1, None, 2.5]) for _ in range(sum(sizes))]]
         for s in stores[:(2 if quick else 4)] if rng.random() < 0.5 else [rng.choice(stores)]:
